@@ -56,6 +56,7 @@ type Dev struct {
 	Index int
 	f     *os.File
 	fd    int
+	nRead int64 // frames read from the descriptor
 }
 
 func openTunTap(name string, tap bool) (*Dev, error) {
@@ -148,6 +149,25 @@ func (w *World) Close() {
 	}
 	w.Devs = nil
 	// leftover routes/addresses go with the devices
+}
+
+// txPackets: frames the kernel has queued on the device so far (each of them can be read from the descriptor).
+func (d *Dev) txPackets() int64 {
+	out, err := exec.Command("ip", "-s", "-j", "link", "show", "dev", d.Name).Output()
+	if err != nil {
+		return -1
+	}
+	var v []struct {
+		Stats64 struct {
+			Tx struct {
+				Packets int64 `json:"packets"`
+			} `json:"tx"`
+		} `json:"stats64"`
+	}
+	if json.Unmarshal(out, &v) != nil || len(v) == 0 {
+		return -1
+	}
+	return v[0].Stats64.Tx.Packets
 }
 
 // txDropped: frames the kernel could not queue on the device (the wire lost them).
